@@ -679,10 +679,7 @@ func (k Keeper) ValidateUnjailMessage(ctx sdk.Ctx, msg types.MsgUnjail) (addr sd
 	if !found {
 		return nil, types.ErrNoValidatorForAddress(k.Codespace())
 	}
-	if info.JailedUntil.After(time.Now()) {
-		return nil, types.ErrValidatorJailed(k.Codespace())
-	}
-	// cannot be unjailed until out of jail
+	// cannot be unjailed until out of jail (judged on block time only: the local wall clock must not decide a tx result)
 	if ctx.BlockHeader().Time.Before(info.JailedUntil) {
 		return nil, types.ErrValidatorJailed(k.Codespace())
 	}
